@@ -112,12 +112,15 @@ def slot_history(ctx):
 def run(ctx):
     proof = common.proof_status(ctx)
     n = 40 if ctx.tier == "quick" else 800
+    # block-level correspondence of the directory model the C02 theorems are about
+    from . import chaincorr
+    chaincorr.run(ctx, 12 if ctx.tier == "quick" else 300)
     b = [("hash-slot-sweep", slot_history) for _ in range(3 if ctx.tier == "quick" else 30)]
     b += [("namespace", ns_history) for _ in range(n)]
     # namespace calls interleaved with open handles on entries of the same hash chain (an open file buffers its header)
     from . import c01
     b += [x for x in c01.builders(ctx) if x[0] == "mixed-one-hash-chain"][: (10 if ctx.tier == "quick" else 200)]
-    rule = ("file histories with several open handles whose names share one hash chain (creates/deletes behind an open entry); random namespace call sequences over nested directories with 6 names colliding in one hash slot + 3 in another + case variants; every failing "
+    rule = ("block-level correspondence with Model/Chain.v (hash table + every chain link after every create/delete, colliding / case-variant / Latin-1 / over-long names); file histories with several open handles whose names share one hash chain (creates/deletes behind an open entry); random namespace call sequences over nested directories with 6 names colliding in one hash slot + 3 in another + case variants; every failing "
             "call kind occurs (duplicate, missing, not empty, into own subtree); image decoded and compared with the model every 12 calls; "
             "non-trivial = at least one failing call and one successful rename; distinct = distinct script")
     nt = lambda L, r: any(rs and rs[-1].startswith("err") for rs in r["results"].values()) and any(l.startswith("mv") for l in L)
